@@ -1295,7 +1295,7 @@ fn gen_c09_cfg(rng: &mut Rng) -> ScannerCfg {
 
 fn gen_c09_input(rng: &mut Rng) -> String {
     let mut s = String::new();
-    let pieces = ["a", "b", "abc", "é", "€", "😀", " ", "z", "\n", "\n", "\r\n", "\n\n", "//c\n", "\"a\nb\"", "a\nb", "b\n", "zz"];
+    let pieces = ["a", "b", "abc", "é", "€", "😀", " ", "z", "\n", "\n", "\r\n", "\n\n", "//c\n", "\"a\nb\"", "a\nb", "b\n", "zz", "\r", "a\rb", "\r\r\n"];
     for _ in 0..rng.below(25) {
         s.push_str(pieces[rng.below(pieces.len())]);
     }
